@@ -105,7 +105,11 @@ func (fr *Frame) doCall(in ssa.Instruction, cc *ssa.CallCommon, fv Val, args []V
 			binds = fv.Binds
 		}
 		if callee == nil {
-			return fr.havocCall(in, "dynamic-call", resT, nil)
+			if sp := e.L.funcTypeSpec(cc.Value.Type()); sp != nil {
+				all := append([]Val{fv}, args...)
+				return fr.applyContract(in, nil, sp, all, nil, resT, sp.Key)
+			}
+			return fr.havocCall(in, "dynamic-call:"+shortTypeKey(cc.Value.Type()), resT, nil)
 		}
 	}
 	key := e.L.funcKey(callee)
@@ -369,7 +373,8 @@ func (fr *Frame) builtinCopy(in ssa.Instruction, args []Val) Val {
 	i := "i!c"
 	rel := app("bvsub", i, dst.sOff())
 	body := mkEq(sel(na, i), mkIte(mkAnd(app("bvsle", dst.sOff(), i), app("bvslt", i, app("bvadd", dst.sOff(), n))), srcAt(rel), sel(dArr, i)))
-	e.assume(fmt.Sprintf("(forall ((%s (_ BitVec 64))) (! %s :pattern ((select %s %s))))", i, body, na, i))
+	_ = body
+	e.defArray(na, i, mkIte(mkAnd(app("bvsle", dst.sOff(), i), app("bvslt", i, app("bvadd", dst.sOff(), n))), srcAt(rel), sel(dArr, i)))
 	e.heapSet(fr.st, key, srt, mkIte(mkEq(n, bvLitI(64, 0)), heap, sto(heap, dst.sBase(), na)))
 	return Val{T: tInt, S: n}
 }
@@ -425,13 +430,16 @@ func (fr *Frame) builtinAppend(in ssa.Instruction, args []Val, resT types.Type) 
 	start := app("bvadd", s.sOff(), s.sLen())
 	inArr := e.fresh("app_inplace", asrt)
 	body := mkEq(sel(inArr, i), mkIte(mkAnd(app("bvsle", start, i), app("bvslt", i, app("bvadd", start, tLen))), tAt(app("bvsub", i, start)), sel(sArr, i)))
-	e.assume(fmt.Sprintf("(forall ((%s (_ BitVec 64))) (! %s :pattern ((select %s %s))))", i, body, inArr, i))
+	_ = body
+	e.defArray(inArr, i, mkIte(mkAnd(app("bvsle", start, i), app("bvslt", i, app("bvadd", start, tLen))), tAt(app("bvsub", i, start)), sel(sArr, i)))
 	// reallocated
 	r := e.newRef(fr.st, "append")
 	reArr := e.fresh("app_realloc", asrt)
 	body2 := mkEq(sel(reArr, i), mkIte(mkAnd(app("bvsle", bvLitI(64, 0), i), app("bvslt", i, s.sLen())), sel(sArr, app("bvadd", s.sOff(), i)),
 		mkIte(mkAnd(app("bvsle", s.sLen(), i), app("bvslt", i, newLen)), tAt(app("bvsub", i, s.sLen())), zeroLeaf(es))))
-	e.assume(fmt.Sprintf("(forall ((%s (_ BitVec 64))) (! %s :pattern ((select %s %s))))", i, body2, reArr, i))
+	_ = body2
+	e.defArray(reArr, i, mkIte(mkAnd(app("bvsle", bvLitI(64, 0), i), app("bvslt", i, s.sLen())), sel(sArr, app("bvadd", s.sOff(), i)),
+		mkIte(mkAnd(app("bvsle", s.sLen(), i), app("bvslt", i, newLen)), tAt(app("bvsub", i, s.sLen())), zeroLeaf(es))))
 	newCap := e.fresh("appcap", sBV64)
 	e.assume(mkAnd(app("bvsle", newLen, newCap), app("bvsle", newCap, bvLitI(64, 1<<42))))
 	nothing := mkEq(tLen, bvLitI(64, 0))
